@@ -3,7 +3,8 @@
    Only statements (closed by `exact`), Print Assumptions, and examples.
    Model: Model/Tok.v (Tokenizer.parse, character-exact), Model/TokPos.v (positions, hand-overs, reach). *)
 From Coq Require Import ZArith NArith List Bool String.
-From JMCV Require Import Model.Tok Model.TokPos Model.TokDerived Proofs.Tok Proofs.TokPos Proofs.TokProps Proofs.TokDerived.
+From JMCV Require Import Model.Tok Model.TokPos Model.TokDerived Model.TokCite
+  Proofs.Tok Proofs.TokPos Proofs.TokProps Proofs.TokDerived Proofs.TokCite.
 Import ListNotations.
 Open Scope Z_scope.
 
@@ -83,6 +84,56 @@ Theorem C14_error_end : forall printable p0 s t,
               cite_end printable t = pos_after p0 (d ++ t_str t).
 Proof. exact cite_end_is_end. Qed.
 Print Assumptions C14_error_end.
+
+(* error_msg without col_length (strengthening round 3; Model.TokCite.cite = what the header `In file:L:C` and the
+   sentence `at line L col C` say): for a token cited at its true position the diagnostic cites the position of the FIRST
+   character of the token's own text - for every token, however many lines it spans ... *)
+Theorem C14_error_start : forall printable p0 s t,
+  faithful_from p0 s t ->
+  exists d r, s = d ++ r /\ token_src t r /\ cite printable false t = pos_after p0 d.
+Proof. exact cite_start_is_start. Qed.
+Print Assumptions C14_error_start.
+
+(* ... for a bracket token that spans several lines: the text at the cited position is the whole bracket, which ends
+   count("\n") lines further down - the line error_msg uses for the source excerpt (display_line), not for the citation. *)
+Theorem C14_error_start_multiline : forall printable p0 s t,
+  faithful_from p0 s t -> t_type t <> STRING ->
+  exists d r, s = d ++ t_str t ++ r /\ cite printable false t = pos_after p0 d /\
+              fst (pos_after p0 (d ++ t_str t)) = fst (cite printable false t) + count_nl (t_str t).
+Proof. exact cite_start_spans. Qed.
+Print Assumptions C14_error_start_multiline.
+
+Theorem C14_error_display_line : forall p0 s t,
+  faithful_from p0 s t -> t_type t <> STRING ->
+  exists d r, s = d ++ t_str t ++ r /\ (t_line t, t_col t) = pos_after p0 d /\
+              display_line true t = fst (pos_after p0 (d ++ t_str t)).
+Proof. exact display_line_is_last. Qed.
+Print Assumptions C14_error_display_line.
+
+(* Header and sentence built from display_line (the bug the third seeding round planted) never cite the first character
+   of a token that spans several lines - the cited line is strictly below - and are indistinguishable from the tree's
+   citation on every token whose text holds no newline (which is why single-keyword plants cannot see it). *)
+Theorem C14_error_display_line_unfaithful : forall printable t,
+  t_type t <> STRING -> mem_char c_nl (t_str t) = true ->
+  fst (cite_display printable true false t) > fst (cite printable false t) /\
+  cite_display printable true false t <> (t_line t, t_col t).
+Proof. exact cite_display_unfaithful. Qed.
+Print Assumptions C14_error_display_line_unfaithful.
+
+Theorem C14_error_display_line_same_on_one_line : forall printable dcl cl t,
+  full_string_has_nl t = false -> cite_display printable dcl cl t = cite printable cl t.
+Proof. exact cite_display_same_single_line. Qed.
+Print Assumptions C14_error_display_line_same_on_one_line.
+
+(* hypotheses satisfiable: the argument list of `f(⏎  1,⏎  2⏎)` re-tokenised from (3, 5): cited at (3, 5), shown at line 6 *)
+Example C14_error_start_nonvacuous :
+  let t := mkTok PAREN_ROUND 3 5 (of_string "(
+  1,
+  2
+)"%string) false in
+  cite (fun _ => true) false t = (3, 5) /\ display_line true t = 6 /\
+  cite_display (fun _ => true) true false t = (6, 5) /\ cite (fun _ => true) true t = (6, 2).
+Proof. vm_compute. repeat split. Qed.
 
 (* Derived tokens (strengthening round 1).  `parse_func_args` splits the sign off the operator token of a glued
    keyword argument `key=-N` / `key=+N` and cites it `d` columns right of that operator token.  If the operator token
